@@ -172,7 +172,7 @@ def check(case):
                     res.fail('batch-too-large', 'batch-too-large|' + base,
                              'after excluding %s only %d continuing + %d elected remain, %d seats can still be filled' %
                              (sorted(run), len(electable_out), nel, need))
-                if rule == 'wigm' and 'zero' in a['msg'] and any(bcs[c][key] != 0 for c in batch):
+                if rule == 'wigm' and 'zero' in a['msg'] and any(not ar.eq(bcs[c][key], Fraction(0)) for c in batch):     # "zero" by the arithmetic's own law
                     res.fail('zero-batch-nonzero', 'zero-batch-nonzero|' + base, 'batch(zero) excludes a candidate with votes')
             else:
                 c = run[0]
